@@ -182,6 +182,19 @@ Definition fit_predict (p : plsr) (X : tensor F) : tensor F :=
   plsr_predict (X_mean_ p) (Y_mean_ p) (loadings p) (coef_of (comps p)) (yload_of (hd 0 (shape (Y_mean_ p))) (comps p)) X.
 End Fit.
 
+(* the Y branch of CP_PLSR.transform(X, Y) (Y already centred): per component the Y score Y.q, then
+   Y -= (X_scores @ coef_[:, component]) q'.  Tc = all X score columns, bs = the columns of coef_ (entries beyond
+   the end of a column read as 0, as coef_of pads them), qs = the Y loadings *)
+Fixpoint ytransform_cols (Y : tensor F) (Tc : list (list F)) (bs : list (list F)) (qs : list (tensor F)) : list (list F) :=
+  match bs, qs with
+  | b :: bs', q :: qs' => yscore Y q :: ytransform_cols (ydeflate Y Tc b q) Tc bs' qs'
+  | _, _ => []
+  end.
+(* the second component of CP_PLSR.transform(X, Y) of a fitted model *)
+Definition fit_transform_Y (p : plsr) (X Y : tensor F) : list (list F) :=
+  ytransform_cols (center Y (Y_mean_ p)) (transform_cols (center X (X_mean_ p)) (loadings p))
+                  (map c_B (comps p)) (map c_yload (comps p)).
+
 (* ---------------------------------------------------------------- the inner power iteration of CP_PLSR.fit
    (the body of `for iter in range(self.n_iter_max)`), concretely.  What stays a black box:
      sqrtF    the square root inside T.norm
